@@ -109,6 +109,9 @@ struct World {
     dg_q_ok: [bool; 2], // … as long as the shadow is certain
     tabled: [std::collections::BTreeSet<u32>; 2], // ids of Connects this endpoint has taken in (not refused) and its application has not accepted yet
     abandoned: [std::collections::BTreeSet<u32>; 2], // ids of own stream requests whose caller gave up and which the peer has not answered yet
+    fin_seen: [std::collections::BTreeSet<(usize, usize)>; 2], // (e) handles whose peer's Finish reached e's task while it was running or winding down after a LOCAL drop
+    delivered_bytes: HashMap<(usize, usize), Vec<u8>>, // payloads of the Push frames that reached e's task for the stream of handle h, in order
+    delivered_unsure: std::collections::BTreeSet<(usize, usize)>,
     free_ids: [std::collections::HashSet<u32>; 2],   // flow ids an endpoint has certainly let go of (and not taken up again)
     bind_ids: [std::collections::HashSet<u32>; 2],   // flow ids under which an endpoint has a bind request out
     port_handle: HashMap<u64, [Option<usize>; 2]>,
@@ -256,6 +259,9 @@ impl World {
             dg_q_ok: [true; 2],
             tabled: [std::collections::BTreeSet::new(), std::collections::BTreeSet::new()],
             abandoned: [std::collections::BTreeSet::new(), std::collections::BTreeSet::new()],
+            fin_seen: [std::collections::BTreeSet::new(), std::collections::BTreeSet::new()],
+            delivered_bytes: HashMap::new(),
+            delivered_unsure: std::collections::BTreeSet::new(),
             free_ids: [std::collections::HashSet::new(), std::collections::HashSet::new()],
             bind_ids: [std::collections::HashSet::new(), std::collections::HashSet::new()],
             port_handle: HashMap::new(),
@@ -627,6 +633,31 @@ impl World {
                         self.acked_out[e].remove(&id);
                     }
                     if op == 4 { *self.pushes_in[e].entry(id).or_insert(0) += 1; }
+                    // what reaches the task of an endpoint that is running — or winding down after a LOCAL drop of
+                    // its Multiplexor, which keeps dispatching what the peer still sends — for a stream its
+                    // application holds: the reader is owed exactly these bytes, then the end
+                    if matches!(op, 3 | 4) && frame_valid(t[2]) {
+                        let held_up = self.backlog[e][0] >= self.opts[e].accept_cap || (self.opts[e].bind_cap > 0 && self.backlog[e][1] >= self.opts[e].bind_cap);
+                        let local_only = !self.view[e].exited && matches!(self.view[e].terminated_by.as_deref(), None | Some("dropmux")) && !self.ep_faulted[e] && !held_up;
+                        // (the handle of this flow at e: the in-use shadow, or — it is emptied by a local drop — the
+                        // pairing of the stream request's port with the handles both applications got)
+                        let hh = self.est[e].get(&id).copied().or_else(|| {
+                            if self.any_reuse { return None; }
+                            let port = self.fid_port.get(&id)?;
+                            self.port_handle.get(port).and_then(|ent| ent[e])
+                        }).filter(|h| self.view[e].handles.get(*h).is_some_and(|hi| hi.alive));
+                        if let Some(h) = hh {
+                            if local_only && !lagging && !self.in_batch {
+                                if op == 4 {
+                                    if let Some((_, _, p)) = parse_frame(t[2]) { self.delivered_bytes.entry((e, h)).or_default().extend_from_slice(&p); }
+                                } else {
+                                    self.fin_seen[e].insert((e, h));
+                                }
+                            } else {
+                                self.delivered_unsure.insert((e, h));
+                            }
+                        }
+                    }
                 }
             }
         }
@@ -705,8 +736,11 @@ impl World {
                 match r {
                     ["wrote", n] => {
                         let n: usize = n.parse().unwrap();
-                        if clean && !self.reused && !data.is_empty() && self.peer_reset.contains(&(e, h)) {
-                            self.fail("C05", "write-after-peer-abort", format!("a write on {}#{h} was accepted ({n} bytes) after the peer's Reset of that stream had been processed", NAMES[e]));
+                        if clean && !self.reused && (!data.is_empty() || t[0] == "wpush") && self.peer_reset.contains(&(e, h)) {
+                            let msg = format!("a write (`{}`) on {}#{h} was accepted ({n} bytes) after the peer's Reset of that stream had been processed", t[0], NAMES[e]);
+                            self.fail("C05", "write-after-peer-abort", msg.clone());
+                            // C06: "the peer's later writes fail with a broken-pipe error"
+                            self.fail("C06", "write-after-peer-abort", msg);
                         }
                         if n != data.len() {
                             self.fail("C02", "short-write", format!("write of {} bytes reported {n}", data.len()));
@@ -1351,6 +1385,27 @@ impl World {
         if self.injected {
             return;
         }
+        // C08 / C05: whatever ended the stream or the connection, "reads return the data already delivered, then
+        // end-of-stream": every byte of the Push frames that reached this endpoint's task for this stream has
+        // been returned when the reader sees the end (the stream was not reset either way and is still held).
+        if !self.reused && !self.delivered_unsure.contains(&(e, h)) && !self.aborted.contains_key(&(e, h)) {
+            let id = self.est[e].iter().find(|(_, hh)| **hh == h).map(|(id, _)| *id).or_else(|| {
+                let port = self.view[e].handles[h].port?;
+                self.fid_port.iter().find(|(_, p)| **p == port).map(|(id, _)| *id)
+            });
+            if let (Some(id), Some(want)) = (id, self.delivered_bytes.get(&(e, h)).cloned()) {
+                if !self.rst_in[e].contains(&id) && !self.rst_out[e].contains(&id) {
+                    *self.mon.entry("delivered-data-read-before-end/judged").or_insert(0) += 1;
+                    let got = &self.view[e].handles[h].read;
+                    if got.len() < want.len() {
+                        let msg = format!("{}#{h} read end-of-stream after {} bytes, but {} bytes of Push frames had reached its endpoint's task for this stream (never reset, still held): data already delivered was not returned before the end", NAMES[e], got.len(), want.len());
+                        self.fail("C08", "delivered-data-lost-at-end", msg.clone());
+                        self.fail("C05", "delivered-data-lost-at-end", msg.clone());
+                        self.fail("C02", "delivered-data-lost-at-end", msg);
+                    }
+                }
+            }
+        }
         let Some((pe, ph)) = self.peer_handle(e, h) else {
             return;
         };
@@ -1364,7 +1419,10 @@ impl World {
             self.fail("C05", "early-eof", msg);
             return;
         }
-        let clean_finish = peer.shutdown && *self.finished_cleanly.get(&(pe, ph)).unwrap_or(&false) && !conn_ended
+        // (the connection counts as up for this stream if the only thing that happened is a LOCAL drop of e's
+        // Multiplexor and the peer's Finish still reached e's task: FIFO, so all the data before it did too)
+        let local_drop_fin_seen = self.fin_seen[e].contains(&(e, h)) && !self.reused && !self.delivered_unsure.contains(&(e, h));
+        let clean_finish = peer.shutdown && *self.finished_cleanly.get(&(pe, ph)).unwrap_or(&false) && (!conn_ended || local_drop_fin_seen)
             && !self.aborted.contains_key(&(pe, ph)) && !self.aborted.contains_key(&(e, h));
         if clean_finish && self.view[e].handles[h].read != peer.written {
             let msg = format!("{}#{h} read end-of-stream after {} bytes but peer {}#{ph} wrote {} bytes before finishing", NAMES[e], self.view[e].handles[h].read.len(), NAMES[pe], peer.written.len());
@@ -1622,7 +1680,7 @@ fn run_case(r: &mut Rng, focus: Focus, len: usize) -> World {
                     }
                     // the frame-level writer (`poll_write_push`), mostly with an empty payload: what an older
                     // or a foreign peer puts on the wire for an empty write
-                    if matches!(focus, Focus::C02 | Focus::C03 | Focus::C04 | Focus::C05 | Focus::C10) && hi.pending_write.is_none() && r.chance(1, 8) {
+                    if matches!(focus, Focus::C02 | Focus::C03 | Focus::C04 | Focus::C05 | Focus::C06 | Focus::C10) && hi.pending_write.is_none() && r.chance(1, 8) {
                         let d = if r.chance(3, 4) { vec![] } else { gen_payload(r, tags[e].wrapping_add(h as u8 * 37), hi.written.len()) };
                         w.stim(e, &[s("wpush"), s(h), hexz(&d)]);
                         continue;
@@ -1996,6 +2054,66 @@ fn garbage_under_backpressure_case(r: &mut Rng, focus: Focus) -> World {
             if !b.is_empty() { b[0] = *r.pick(&[0x79u8, 0x17, 0xf0, 0x78]); }
             w.stim(e, &[s("deliver"), s("bin"), hexd(&b)]);
         }
+    }
+    fair_completion(&mut w, 20);
+    final_checks(&mut w);
+    w
+}
+
+/// C02 / C05 / C08: data in flight or queued when the connection ends. The peer writes a backlog (up to the
+/// reader's window, with or without a clean shutdown); then the reader's side ends — a LOCAL drop of its
+/// Multiplexor before or after the frames arrive, the peer's Close, a failing transport — and only then the
+/// application, which still holds the stream, reads: it gets every byte that reached its endpoint, then the
+/// end; after a local drop with a healthy transport that is everything the peer wrote before it saw the Close.
+fn backlog_at_end_case(r: &mut Rng, focus: Focus) -> World {
+    let mut opts = [gen_opts(r, focus), gen_opts(r, focus)];
+    let e = r.below(2) as usize; // the reading endpoint
+    let pe = 1 - e;
+    opts[e].rwnd = *r.pick(&[4u32, 8, 16, 16]);
+    opts[e].threshold = *r.pick(&[1u32, 2, 2, 4, 8]);
+    let mut w = World::new(opts);
+    for k in 0..2 {
+        let mut t = vec![s("rng")];
+        t.extend((0..8).map(|_| s(r.range(1, 0xffff_ffff))));
+        w.stim(k, &t);
+        w.view[k].rng_left = 8;
+    }
+    let oe = r.below(2) as usize;
+    let req = w.next_req; w.next_req += 1; w.view[oe].rng_left -= 1;
+    w.stim(oe, &[s("open"), s(req), hexd(&r.bytes(2)), s(1000 + req)]);
+    for _ in 0..3 { while w.deliver_next(1 - oe) {} while w.deliver_next(oe) {} }
+    w.stim(1 - oe, &[s("accept")]);
+    if w.view[0].handles.is_empty() || w.view[1].handles.is_empty() { fair_completion(&mut w, 10); final_checks(&mut w); return w; }
+    // the peer writes its backlog: more frames than the reader's acknowledgement threshold, within its window
+    let n = r.range(1, u64::from(w.opts[e].rwnd)) as usize;
+    let tag = r.next() as u8;
+    for k in 0..n {
+        let d = gen_payload(r, tag.wrapping_add(k as u8), w.view[pe].handles[0].written.len());
+        let d = if d.is_empty() { vec![tag] } else { d };
+        let out = w.stim(pe, &[s("write"), s(0), hexd(&d)]);
+        if !out.starts_with("wrote") { break; }
+    }
+    let fin = r.chance(2, 3);
+    if fin && w.view[pe].handles[0].pending_write.is_none() { w.stim(pe, &[s("shutdown"), s(0)]); }
+    // how much of it has arrived when the end comes
+    let arrive_first = r.below(3);
+    if arrive_first == 0 { while w.deliver_next(e) {} } else if arrive_first == 1 { for _ in 0..r.range(0, n as u64) { w.deliver_next(e); } }
+    // now and then the reader has already taken a little
+    if r.chance(1, 3) { w.stim(e, &[s("read"), s(0), s(*r.pick(&[1u64, 3, 64]))]); }
+    match r.below(5) {
+        0 | 1 if w.sims[e].pending_futures() == 0 => {
+            // local drop, transport healthy: what the peer still had on the wire keeps arriving
+            w.stim(e, &[s("dropmux")]);
+            while w.deliver_next(e) {}
+        }
+        2 => { while w.deliver_next(e) {} w.stim(e, &[s("deliver"), s("close")]); }
+        3 => { w.stim(e, &[s("deliver"), s("err")]); }
+        _ => { while w.deliver_next(e) {} w.stim(e, &[s("deliver"), s("eof")]); }
+    }
+    // the application reads what it is owed
+    for _ in 0..(n + 4) {
+        let out = w.stim(e, &[s("read"), s(0), s(*r.pick(&[7u64, 64, 4096]))]);
+        if !out.starts_with("data") { break; }
     }
     fair_completion(&mut w, 20);
     final_checks(&mut w);
@@ -3287,6 +3405,18 @@ fn main() {
             let mut r = base.fork(k);
             match catch(|| reopen_same_id_case(&mut r, focus)) {
                 Ok(w) => handle_world(w, "reopen-same-id", &mut rep, &mut drv),
+                Err(p) => rep.fail(FailKind::Impl, "harness-panic", &format!("panic outside a stimulus: {p}"), json!({})),
+            }
+        }
+    }
+    // a backlog in flight or queued when the connection ends, read afterwards
+    if matches!(focus, Focus::C02 | Focus::C05 | Focus::C08) {
+        let n = match args.tier { Tier::Quick => 80, Tier::Thorough => 2000 };
+        let base = Rng::new(args.seed ^ fnv(focus.name().as_bytes()) ^ 0x6261_636b_6c6f);
+        for k in 0..n {
+            let mut r = base.fork(k);
+            match catch(|| backlog_at_end_case(&mut r, focus)) {
+                Ok(w) => handle_world(w, "backlog-at-end", &mut rep, &mut drv),
                 Err(p) => rep.fail(FailKind::Impl, "harness-panic", &format!("panic outside a stimulus: {p}"), json!({})),
             }
         }
